@@ -41,6 +41,7 @@ type (
 	SQuant  struct {
 		Forall  bool
 		Vars    []string
+		Sorts   []string // sort of each bound variable (Int when absent)
 		Body    SExpr
 		Bounded bool // "forall k in [lo, hi) :: body" with constant bounds: expanded
 		Lo, Hi  int64
@@ -148,13 +149,34 @@ func (p *specParser) parseExpr() SExpr {
 	if p.lx.kind == 'i' && (p.lx.tok == "forall" || p.lx.tok == "exists") {
 		fa := p.lx.tok == "forall"
 		p.lx.next()
-		var vars []string
+		var vars, sorts []string
 		for {
 			if p.lx.kind != 'i' {
 				panic("expected variable name")
 			}
 			vars = append(vars, p.lx.tok)
 			p.lx.next()
+			// optional sort of the bound variable: forall t:val, n:string, k :: ... (int when omitted)
+			srt := "Int"
+			if p.lx.tok == ":" {
+				p.lx.next()
+				switch p.lx.tok {
+				case "val":
+					srt = "Val"
+				case "string":
+					srt = "Str"
+				case "strkey":
+					srt = "StrKey" // ranges over strings as uninterpreted spec functions see them (their canonical key)
+				case "bool":
+					srt = "Bool"
+				case "int":
+					srt = "Int"
+				default:
+					panic("unknown sort of bound variable: " + p.lx.tok)
+				}
+				p.lx.next()
+			}
+			sorts = append(sorts, srt)
 			if !p.accept(",") {
 				break
 			}
@@ -180,7 +202,7 @@ func (p *specParser) parseExpr() SExpr {
 			p.lx.next()
 		}
 		p.expect("::")
-		return &SQuant{Forall: fa, Vars: vars, Body: p.parseExpr(), Trig: trig}
+		return &SQuant{Forall: fa, Vars: vars, Sorts: sorts, Body: p.parseExpr(), Trig: trig}
 	}
 	return p.parseIff()
 }
